@@ -6,7 +6,7 @@ ID = "C01"
 BOUNDS = {
     "quick": "one operation (aspirate|dispense|transfer|distribute) from an arbitrary valid state (symbolic per-well volumes, labware "
              "min/max_volume, worklist max_volume > 0, volume arguments >= 0); both devices; plate 2x2 and trough 3 virtual rows x 2 columns on "
-             "either side, plus same-labware transfers; k<=2 wells/triples chosen from 4 candidate ids (repeats allowed); <=3 split steps (k=1) / "
+             "either side, a trough 2x2 with a plate 2x2 (identical shape), plus same-labware transfers; k<=2 wells/triples chosen from 4 candidate ids (repeats allowed); <=3 split steps (k=1) / "
              "<=2 (k=2); partition_by auto/source/destination; wash 1/'reuse'; scalar and per-well volume arguments; distribute to 1-3 wells",
     "thorough": "as quick, plus geometries plate 3x2 / 8x2 / 1x1 and troughs 1x1 / 8x1, <=4 split steps for k=1, 4 candidate wells per slot for k=2 with all "
                 "partition modes, wash schemes 1,3,'flush','reuse', composition agreement for k=2 transfers without splitting incl. chained same-labware transfers",
@@ -22,6 +22,7 @@ ASSUMPTIONS = [
 def shards(tier):
     out = []
     base = [("p2x2", "p2x2"), ("p2x2", "t3x2"), ("t3x2", "p2x2"), ("t3x2", "t3x2")]
+    same_shape = [("t2x2", "p2x2"), ("p2x2", "t2x2")]   # a trough and a plate of identical shape in one worklist
     extra = [("p3x2", "p8x2"), ("t8x1", "p8x2"), ("p1x1", "t1x1"), ("t1x1", "p1x1"), ("p8x2", "t8x1")] if tier == "thorough" else []
     for dev in ("evo", "fluent"):
         for sg, dg in base + extra:
@@ -40,6 +41,11 @@ def shards(tier):
                     out.append(dict(dev=dev, op="transfer", sgeo=sg, dgeo=dg, k=2, steps=2, partition_by=pb, washes=[1], comp=False, ncand=4 if is_base else 2))
                 if is_base:
                     out.append(dict(dev=dev, op="transfer", sgeo=sg, dgeo=dg, k=2, steps=1, partition_by="auto", washes=[1], comp=True, ncand=2, wl_max=common.BIG * 2))
+        for sg, dg in same_shape:
+            out.append(dict(dev=dev, op="transfer", sgeo=sg, dgeo=dg, k=1, steps=2, partition_by="auto", washes=[1], comp=False))
+            out.append(dict(dev=dev, op="transfer", sgeo=sg, dgeo=dg, k=2, steps=1, partition_by="auto", washes=[1], comp=False, ncand=2, wl_max=common.BIG * 2))
+            if sg.startswith("t"):
+                out.append(dict(dev=dev, op="distribute", sgeo=sg, dgeo=dg, k=1, steps=1))
         for sg in ("p2x2", "t3x2"):
             out.append(dict(dev=dev, op="transfer", sgeo=sg, dgeo=sg, same=True, k=1, steps=3, partition_by="auto", comp=True))
             if tier == "thorough":
